@@ -177,18 +177,27 @@ class KwProber:
         self.counter.add("tool_runs")
         return d, out, r
 
-    def _jobs(self, lang, out, files, plain):
+    def _jobs(self, lang, out, files, plain, mode="pack"):
+        """quick tier, C++: a packed module is compiled file by file under c++17 and once as a whole (one TU including every header)
+        under c++20; single-name types are compiled under c++20 only (its reserved words are a superset of c++17's). thorough: every
+        file under both standards, plain command."""
         jobs = []
         for f in files:
             if lang == "cpp":
-                if not plain and decl_implied_by_impl(out, f):
+                if self.tier == "quick" and decl_implied_by_impl(out, f):
                     continue
-                for std in STDS:
+                stds = STDS if self.tier != "quick" else (("c++17",) if mode == "pack" else ("c++20",))
+                for std in stds:
                     jobs.append(dict(lang=lang, std=std, rel=f, cmd=cmd_for(lang, std, os.path.join(out, f), out, None if plain else self.pch.get(std)),
                                      plain=cmd_for(lang, std, os.path.join(out, f), out)))
             else:
                 c = cmd_for(lang, None, os.path.join(out, f), out)
                 jobs.append(dict(lang=lang, std=None, rel=f, cmd=c, plain=c))
+        if lang == "cpp" and self.tier == "quick" and mode == "pack" and jobs:
+            tu = os.path.join(os.path.dirname(out), "all.cpp")
+            open(tu, "w").write("".join('#include "%s"\n' % j["rel"] for j in jobs))
+            jobs.append(dict(lang=lang, std="c++20", rel=jobs[0]["rel"], tu=open(tu).read(), cmd=cmd_for(lang, "c++20", tu, out, None if plain else self.pch.get("c++20")),
+                             plain=cmd_for(lang, "c++20", os.path.join(out, jobs[0]["rel"]), out)))
         return jobs
 
     def _run(self, lang, role, out, jobs, parallel=True):
@@ -230,7 +239,7 @@ class KwProber:
             for t in U.kw_types(role, n):
                 owner[t] = n
         jobs = []
-        for j in self._jobs(lang, out, files, plain):
+        for j in self._jobs(lang, out, files, plain, mode="single"):
             j["name"] = owner.get(os.path.basename(type_of(j["rel"])))
             if j["name"] is not None:
                 jobs.append(j)
@@ -259,7 +268,7 @@ class KwProber:
                 self.counter.add("single_name_modules_identical_to_packed_types")
                 fails = [dict(j, plain=cmd_for(lang, j["std"], os.path.join(out, j["rel"]), out)) for j in kjobs]
                 return dict(status="fail", text="\n".join(j["text"] for j in fails), base=out, fails=fails, source=src)
-        res = self._run(lang, role, out, self._jobs(lang, out, files, self.tier != "quick"), parallel=False)
+        res = self._run(lang, role, out, self._jobs(lang, out, files, self.tier != "quick", mode="single"), parallel=False)
         fails = [j for j in res if j["rc"] != 0]
         return dict(status="fail" if fails else "ok", text="\n".join(j["text"] for j in fails), base=out, fails=fails, source=src)
 
@@ -270,9 +279,10 @@ class KwProber:
         bad = {}
         if first["status"] != "ok":
             cur, res = list(names), first
-            for _round in range(4):
-                sus = U.suspects(cur, res["text"], res["base"])
-                if not sus or res["status"] == "reject" and len(sus) == len(cur):
+            for rnd in range(3):
+                # a diagnostic can hide later ones in the same construct: the second round offers every remaining name
+                sus = U.suspects(cur, res["text"], res["base"]) if rnd == 0 else []
+                if not sus or res["status"] == "reject":
                     sus = list(cur)
                 found = self.singles(lang, role, sus)
                 bad.update(found)
@@ -463,26 +473,6 @@ def rustc_errors(stderr):
     return out
 
 
-def items_at(path, lines):
-    """names of the `pub struct X;` items enclosing the given error lines of a generated module"""
-    try:
-        src = open(path).read().splitlines()
-    except OSError:
-        return []
-    out = []
-    for l in lines:
-        m = re.match(r"^src/\w+\.rs:(\d+):", l)
-        k = int(m.group(1)) - 1 if m else -1
-        while 0 <= k < len(src):
-            mm = re.match(r"\s*pub struct (\w+);", src[k])
-            if mm:
-                if mm.group(1) not in out:
-                    out.append(mm.group(1))
-                break
-            k -= 1
-    return out
-
-
 def macro_isolate(tier, modules, role_names, stderr, crate, rep, cnt, cb_ok=()):
     """the crate holding every generated module does not build: attribute the rustc errors to modules, and inside keyword packs to
     names (confirmed by single-name modules in a second crate); returns the set of modules / names whose expansion does not type-check"""
@@ -504,14 +494,15 @@ def macro_isolate(tier, modules, role_names, stderr, crate, rep, cnt, cb_ok=()):
                     iso["kwx_%s_%s" % (role.replace("-", "_"), sha(n)[:6])] = (role, n, U.kw_source(role, [n], sfx="X" + sha(n)[:6]))
                 left[role] = [n for n in left[role] if n not in sus]
                 cur[mod] = U.kw_source(role, left[role])
-            elif mod == "cb" and 0 < len(items_at(os.path.join(crate_dir, "src", "cb.rs"), lines)) < len(cb_left):
-                names = items_at(os.path.join(crate_dir, "src", "cb.rs"), lines)
-                for (name, label, _snip) in [it for it in cb_left if it[0] in names]:
+            elif mod == "cb" and len(cb_left) > 1:
+                # rustc locates errors of the expansion at the attribute (1:1): every callback construct goes into a module of its own
+                names = [it[0] for it in cb_left]
+                for (name, label, _snip) in cb_left:
                     x = "X" + sha(name)[:6]
                     item = next(it for it in U.cb_items(tier, x) if it[0] == name + x)
                     iso["cbx_" + sha(name)[:6]] = (label, None, U.cb_source([item], x))
-                cb_left = [it for it in cb_left if it[0] not in names]
-                cur[mod] = U.cb_source(cb_left)
+                cb_left = []
+                cur.pop(mod, None)
             else:
                 failed.add(mod)
                 msg = re.sub(r"^src/\w+\.rs:\d+:\d+: ", "", lines[0])
@@ -665,18 +656,17 @@ def run(tier):
                 sel = sel2
             bound["units"].setdefault(u.uid, {})[tag] = {"files": len(files), "checked_alone": len(sel)}
             for f in sel:
-                for std in (STDS if lang == "cpp" else (None,)):
+                # quick: every header alone under c++17; c++20 sees every header through the all-headers TUs (sorted / reversed) and
+                # alone again wherever c++17 or a c++20 TU fails. thorough: every header alone under both standards.
+                for std in ((None,) if lang != "cpp" else (STDS if tier == "thorough" else ("c++17",))):
                     jobs.append(dict(kind="alone", unit=u, tag=tag, lang=lang, std=std, rel=f, out=out, variant=variant,
                                      cmd=cmd_for(lang, std, os.path.join(out, f), out)))
                 checked_files[(lang, sha(open(os.path.join(out, f), "rb").read()))] = (u.uid, f)
     prio = {"shape": 0, "ffix": 1, "repo": 2}
     jobs.sort(key=lambda j: (prio.get(j["unit"].uid.split(":")[0], 3), j["lang"] != "cpp"))
     skipped = []
-    ts = time.time()
-    done = run_jobs(jobs, deadline, skipped)
-    timing["standalone"] = round(time.time() - ts, 1)
 
-    # ------------------------------------------------------------------ keyword packs: isolate failing names
+    # ------------------------------------------------------------------ keyword packs (own thread pool; compiler processes share U._SLOTS)
     tk = time.time()
     pch = {}
     if tier == "quick":
@@ -690,36 +680,33 @@ def run(tier):
             return (std, d if rc == 0 else None)
         pch = {s: d for (s, d) in pmap(mk_pch, STDS) if d}
     prober = KwProber(wd, tier, cnt, pch)
-    kw_results = {}
-    for lang in ("c", "cpp", "js"):
-        for role in U.ROLES:
-            names = role_names[role]
-            if time.time() > deadline:
-                skipped.append(dict(kind="kw", lang=lang, rel=role))
-                continue
-            first, bad = prober.analyse(lang, role, names)
+    kw_results, kw_first, kw_err = {}, {}, []
+
+    def kw_one(job):
+        lang, role = job
+        if time.time() > deadline:
+            skipped.append(dict(kind="kw", lang=lang, rel=role))
+            return
+        try:
+            first, bad = prober.analyse(lang, role, role_names[role])
             kw_results[(lang, role)] = bad
-            if first["status"] != "reject":
-                for (f, t, why) in closure_problems(lang, first["base"]):
-                    rep.violation("C09|%s|%s|kw:%s|%s -> %s (%s)" % (lang, "import" if lang == "js" else "include", role, f, t, why),
-                                  {"unit": "kw:" + role, "lang": lang, "stage": "closure", "source": first["source"], "file": f, "target": t, "why": why, "configs": []},
-                                  "%s output of the %s keyword pack: `%s` refers to `%s`: %s" % (lang, role, f, t, why))
-    kw_stats = prober.stats
-    timing["keywords"] = round(time.time() - tk, 1)
-    for (lang, role), bad in sorted(kw_results.items()):
-        for k, r in sorted(bad.items(), key=lambda kv: str(kv[0])):
-            if r["status"] == "reject":
-                continue
-            j = sorted(r["fails"], key=lambda x: (len(x["rel"]), x["rel"], x["std"] or ""))[0]
-            if isinstance(k, tuple):
-                key = "C09|%s|keyword-pack|%s|%s" % (lang, role, sha(" ".join(k[1])))
-                what = "%s output of a module using %d reserved names as %s does not build although each name alone does: %s" % (lang, len(k[1]), role, U.first_errors(j["text"], 1))
-            else:
-                key = "C09|%s|%s|%s|%s" % (lang, U.name_class(lang, k), role, k)
-                what = "%s output does not build when a %s is named `%s` (%s): %s" % (lang, role, k, " ".join(os.path.basename(x) if x.startswith("/") else x for x in j["plain"]), U.first_errors(j["text"], 1))
-            w = {"unit": "kw:" + role, "lang": lang, "std": j["std"], "source": r["source"], "file": j["rel"], "cmd": " ".join(j["plain"]), "errors": U.first_errors(j["text"], 6),
-                 "failing_files": sorted({"%s%s" % (x["rel"], (" -std=" + x["std"]) if x["std"] else "") for x in r["fails"]}), "configs": []}
-            rep.violation(key, w, what)
+            kw_first[(lang, role)] = first
+        except Exception as e:  # re-raised in the main thread
+            kw_err.append(e)
+
+    def kw_all():
+        pmap(kw_one, [(lang, role) for lang in ("cpp", "c", "js") for role in U.ROLES], workers=5)
+        timing["keywords"] = round(time.time() - tk, 1)
+    kw_thread = threading.Thread(target=kw_all)
+    kw_thread.start()
+
+    # ------------------------------------------------------------------ run the standalone jobs
+    ts = time.time()
+    done = run_jobs(jobs, deadline, skipped)
+    if tier == "quick":
+        done += run_jobs([dict(j, std="c++20", cmd=cmd_for("cpp", "c++20", os.path.join(j["out"], j["rel"]), j["out"])) for j in done if j["lang"] == "cpp" and j["rc"] != 0],
+                         deadline, skipped)
+    timing["standalone"] = round(time.time() - ts, 1)
 
     # ------------------------------------------------------------------ TU / include-order jobs (headers that fail alone are left out)
     failing_alone = {(j["unit"].uid, j["tag"], j["rel"]) for j in done if j["rc"] != 0}
@@ -754,7 +741,43 @@ def run(tier):
     tujobs.sort(key=lambda j: (j["rel"].startswith("pair"), j["rel"].startswith("rot"), j["lang"] == "cpp"))
     tt = time.time()
     done_tu = run_jobs(tujobs, deadline, skipped)
+    if tier == "quick":
+        # a c++20 TU fails: look at that unit's headers alone under c++20; if one fails alone the TU failure is its consequence
+        bad20 = {(j["unit"].uid, j["tag"]) for j in done_tu if j["rc"] != 0 and j["std"] == "c++20"}
+        more = run_jobs([dict(j, std="c++20", cmd=cmd_for("cpp", "c++20", os.path.join(j["out"], j["rel"]), j["out"])) for j in done
+                         if j["lang"] == "cpp" and j["std"] == "c++17" and j["rc"] == 0 and (j["unit"].uid, j["tag"]) in bad20], deadline, skipped)
+        done += more
+        failing20 = {(j["unit"].uid, j["tag"]) for j in more if j["rc"] != 0}
+        done_tu = [j for j in done_tu if not (j["rc"] != 0 and j["std"] == "c++20" and (j["unit"].uid, j["tag"]) in failing20)]
     timing["tus"] = round(time.time() - tt, 1)
+
+    # ------------------------------------------------------------------ keyword results
+    kw_thread.join()
+    if kw_err:
+        raise kw_err[0]
+    for (lang, role), first in sorted(kw_first.items()):
+        if first["status"] != "reject":
+            for (f, t, why) in closure_problems(lang, first["base"]):
+                rep.violation("C09|%s|%s|kw:%s|%s -> %s (%s)" % (lang, "import" if lang == "js" else "include", role, f, t, why),
+                              {"unit": "kw:" + role, "lang": lang, "stage": "closure", "source": first["source"], "file": f, "target": t, "why": why, "configs": []},
+                              "%s output of the %s keyword pack: `%s` refers to `%s`: %s" % (lang, role, f, t, why))
+    kw_stats = prober.stats
+    for (lang, role), bad in sorted(kw_results.items()):
+        for k, r in sorted(bad.items(), key=lambda kv: str(kv[0])):
+            if r["status"] == "reject":
+                continue
+            j = sorted(r["fails"], key=lambda x: (len(x["rel"]), x["rel"], x["std"] or ""))[0]
+            if isinstance(k, tuple):
+                key = "C09|%s|keyword-pack|%s|%s" % (lang, role, sha(" ".join(k[1])))
+                what = "%s output of a module using %d reserved names as %s does not build although each name alone does: %s" % (lang, len(k[1]), role, U.first_errors(j["text"], 1))
+            else:
+                key = "C09|%s|%s|%s|%s" % (lang, U.name_class(lang, k), role, k)
+                what = "%s output does not build when a %s is named `%s` (%s): %s" % (lang, role, k, " ".join(os.path.basename(x) if x.startswith("/") else x for x in j["plain"]), U.first_errors(j["text"], 1))
+            w = {"unit": "kw:" + role, "lang": lang, "std": j["std"], "source": r["source"], "file": j["rel"], "cmd": " ".join(j["plain"]), "errors": U.first_errors(j["text"], 6),
+                 "failing_files": sorted({"%s%s" % (x["rel"], (" -std=" + x["std"]) if x["std"] else "") for x in r["fails"]}), "configs": []}
+            if j.get("tu"):
+                w["tu"] = j["tu"]
+            rep.violation(key, w, what)
 
     # ------------------------------------------------------------------ closure checks
     edges = 0
@@ -782,11 +805,12 @@ def run(tier):
         if j["rc"] != 0:
             # the type whose generated file holds the first diagnostic (a header fails in every header that includes it)
             cause = j["rel"]
-            for (f, _ln) in U.error_locations(j["text"]):
-                fa = os.path.abspath(f)
-                if fa.startswith(os.path.abspath(j["out"]) + os.sep):
-                    cause = os.path.relpath(fa, j["out"])
-                    break
+            if os.path.basename(type_of(cause)) not in j["unit"].labels:
+                for (f, _ln) in U.error_locations(j["text"]):
+                    fa = os.path.abspath(f)
+                    if fa.startswith(os.path.abspath(j["out"]) + os.sep) and os.path.basename(fa) not in RUNTIME_FILES:
+                        cause = os.path.relpath(fa, j["out"])
+                        break
             j["cause"] = cause
             groups.setdefault((j["unit"].uid, j["lang"], j["tag"], type_of(cause)), []).append(j)
     confirm = []
